@@ -2,6 +2,7 @@ import Driver.Loop
 import PyGqlModel.Response
 import PyGqlModel.Spec.ResponseSpec
 import PyGqlModel.Spec.NullSites
+import PyGqlModel.Spec.TreeOk
 open PyGql PyGql.Response
 
 namespace Driver.C10
@@ -77,11 +78,14 @@ def handle (j : J) : J :=
           ("wf_real", .bool (Spec.Response.wellFormedB Generated.ResponseKeys.syntaxColKey text (j.getD "real")))]
   | "exec" =>
     let root := fldListOfJson (j.arrD "fields")
+    let treeOk := Spec.TreeOk.treeOkFields (j.natD "len") root
     match execute root with
     | none => .obj [("exec", .null)]
     | some (data, errs) =>
       let sites := Spec.NullSites.sitesFields root
       .obj [("exec", .obj [("data", data), ("errors", .arr (errs.map errToJson))]),
+            ("tree_ok", .bool treeOk),
+            ("keys_distinct", .bool (decide (Spec.NullSites.keysOf root).Nodup && Spec.NullSites.keysDistinctFields root)),
             ("bijection", .bool (errs.map Err.path? == sites.map some && sites.all fun p => (dataAt data p).map J.isNull == some true))]
   | "lines" =>
     let text := j.textD "text"
